@@ -22,7 +22,11 @@ This file contains what C04 and C05 need *around* the glue step, which is modell
 * the three strategies at the level of match lists (`searchBt`);
 * the repaired pruning (`pruneByAut`, after draft fix 0015): one representative per class of
   matches related by an automorphism of the rule; matches that do not cover every pattern node
-  are never pruned; above `maxGroup` automorphisms nothing is pruned.
+  are never pruned; above `maxGroup` automorphisms nothing is pruned;
+* the same routine followed literally for lists that hold PARTIAL matches (`prunePartial`,
+  `pruneWithCap`): the key as the code builds it (images sorted and compared through `repr`
+  strings), matches that lack a pattern node passed through without a key, `KeyError` /
+  `ValueError` as outcomes, the `max_group` fall-back.
 
 Everything is total and executable (the driver exposes `rinv.*` commands).
 -/
@@ -142,6 +146,143 @@ def PruneSpec (keep : List Nat) (group : List Mapping) (raw kept : List Mapping)
 
 def pruneSpecB (keep : List Nat) (group : List Mapping) (raw kept : List Mapping) : Bool :=
   kept.isSublist raw && raw.all fun m => kept.contains m || kept.any (relatedB keep group m)
+
+/-! ## Pruning of possibly PARTIAL matches, exactly as coded (`_prune_by_rule_automorphisms`)
+
+`pruneByAut` above is the pruning the total-match theorems (C05, `C11.pruning_clause_model`) speak
+about; it keys a match by the least image in NUMERIC order and totalises the two places where the
+Python code raises.  The definitions below follow the code literally for match lists that may hold
+partial matches (`SynReactor(partial=True)`, `PartialMatcher`: dicts that lack pattern nodes):
+
+```
+if len(matches) < 2: return list(matches)
+... enumerate the group, `return list(matches)` as soon as it holds more than max_group elements ...
+for m in matches:
+    if any(p not in m for p in keep): unique.append(m); continue      -- a match that lacks a pattern node has NO key
+    images = [tuple(sorted((repr(p), repr(m[s[p]])) for p in keep)) for s in group]   -- KeyError
+    key = min(images)                                                                  -- ValueError on an empty group
+    if key in seen: continue
+    seen.add(key); unique.append(m)
+```
+
+* a match that lacks a pattern node is passed through unconditionally (no key is built for it, it is
+  never compared with anything, it never enters `seen`);
+* the key of a match that covers `keep` is the least, in the order of Python tuples of pairs of
+  `repr` strings, of its images `p ↦ m[σ p]`, each image sorted by `(repr p, repr h)`; natural numbers
+  are compared through their decimal digit strings (`"10" < "2"`);
+* `m[s[p]]` raises `KeyError` when `σ p` is no key of a match that does cover `keep` (or `p` no key
+  of `σ`), `min([])` raises `ValueError`: both are outcomes (`PruneRes`), not totalised away;
+* `keep` is a Python set: the list `keep` is assumed duplicate-free.
+-/
+
+/-- Worker of `reprDigits` (fuel = an upper bound of the number of digits). -/
+def digitsAux : Nat → Nat → List Nat → List Nat
+  | 0, _, acc => acc
+  | fuel + 1, n, acc => if n < 10 then n :: acc else digitsAux fuel (n / 10) (n % 10 :: acc)
+
+/-- The decimal digits of `n`, most significant first: `repr(n)` character by character. -/
+def reprDigits (n : Nat) : List Nat := digitsAux (n + 1) n []
+
+/-- Python `<` on strings of digits (lexicographic, a proper prefix is smaller). -/
+def strLt : List Nat → List Nat → Bool
+  | [], [] => false
+  | [], _ :: _ => true
+  | _ :: _, [] => false
+  | a :: as, b :: bs => if a < b then true else if b < a then false else strLt as bs
+
+/-- Python `<` on the pairs `(repr p, repr h)`. -/
+def reprPairLt (a b : Nat × Nat) : Bool :=
+  if strLt (reprDigits a.1) (reprDigits b.1) then true
+  else if strLt (reprDigits b.1) (reprDigits a.1) then false
+  else strLt (reprDigits a.2) (reprDigits b.2)
+
+/-- Python `<` on tuples of such pairs. -/
+def reprKeyLt : Mapping → Mapping → Bool
+  | [], [] => false
+  | [], _ :: _ => true
+  | _ :: _, [] => false
+  | a :: as, b :: bs => if reprPairLt a b then true else if reprPairLt b a then false else reprKeyLt as bs
+
+/-- Insert before the first element that is not smaller (stable insertion). -/
+def insertRepr (x : Nat × Nat) : Mapping → Mapping
+  | [] => [x]
+  | y :: ys => if reprPairLt y x then y :: insertRepr x ys else x :: y :: ys
+
+/-- `sorted(...)` of a list of `(repr p, repr h)` pairs. -/
+def sortRepr : Mapping → Mapping
+  | [] => []
+  | x :: xs => insertRepr x (sortRepr xs)
+
+/-- `min(best :: rest)` (the first least element). -/
+def minKey : Mapping → List Mapping → Mapping
+  | best, [] => best
+  | best, y :: ys => minKey (if reprKeyLt y best then y else best) ys
+
+/-- `not any(p not in m for p in keep)`. -/
+def coversB (keep : List Nat) (m : Mapping) : Bool := keep.all fun p => (m.get? p).isSome
+
+/-- What the loop body computes for one match. -/
+inductive KeyRes
+  | lacking                 -- the match lacks a pattern node: no key, kept
+  | key (k : Mapping)
+  | keyError                -- `m[s[p]]`
+  | valueError              -- `min([])`
+deriving Repr, DecidableEq
+
+/-- The outcome of a call: the kept matches, or the exception the Python code raises. -/
+inductive PruneRes
+  | ok (kept : List Mapping)
+  | keyError
+  | valueError
+deriving Repr, DecidableEq
+
+/-- The key of one (possibly partial) match, exactly as the loop body computes it. -/
+def keyP (keep : List Nat) (group : List Mapping) (m : Mapping) : KeyRes :=
+  if coversB keep m then
+    match mapOpt (composeOn keep m) group with
+    | none => .keyError
+    | some [] => .valueError
+    | some (i :: is) => .key (minKey (sortRepr i) (is.map sortRepr))
+  else .lacking
+
+/-- `unique.append(m)` in front of what the rest of the loop yields. -/
+def consOk (m : Mapping) : PruneRes → PruneRes
+  | .ok r => .ok (m :: r)
+  | e => e
+
+/-- The loop over the matches (`seen`, `unique`); the first match whose key raises ends the call. -/
+def dedupP (key : Mapping → KeyRes) : List Mapping → List Mapping → PruneRes
+  | _, [] => .ok []
+  | seen, m :: ms =>
+    match key m with
+    | .lacking => consOk m (dedupP key seen ms)
+    | .keyError => .keyError
+    | .valueError => .valueError
+    | .key k => if seen.contains k then dedupP key seen ms else consOk m (dedupP key (k :: seen) ms)
+
+/-- `_prune_by_rule_automorphisms(matches, rc, keep)` below the group-size bound; `group` is the list
+of automorphisms of the rule restricted to `keep`, as enumerated by the caller. -/
+def prunePartial (keep : List Nat) (group : List Mapping) (ms : List Mapping) : PruneRes :=
+  if ms.length < 2 then .ok ms else dedupP (keyP keep group) [] ms
+
+/-- `_prune_by_rule_automorphisms(matches, rc, keep, max_group=cap)`: with more than `cap`
+automorphisms the matches come back unchanged (nothing is computed, nothing can raise). -/
+def pruneWithCap (cap : Nat) (keep : List Nat) (group : List Mapping) (ms : List Mapping) : PruneRes :=
+  if ms.length < 2 then .ok ms
+  else if group.length > cap then .ok ms
+  else dedupP (keyP keep group) [] ms
+
+/-- `m.get(σ.get(p))`: the composite of two partial maps at `p`. -/
+def pcomp (m σ : Mapping) (p : Nat) : Option Nat := (σ.get? p).bind fun q => m.get? q
+
+/-- The pattern nodes on which `m ∘ σ` is defined (the pre-image of the domain of `m` under `σ`). -/
+def domOn (keep : List Nat) (m σ : Mapping) : List Nat := keep.filter fun p => (pcomp m σ p).isSome
+
+/-- Two possibly partial matches are *related* when they have a common image under the listed rule
+automorphisms AS PARTIAL MAPS: `m ∘ σ₁ = m' ∘ σ₂` on `keep`, undefined at the same pattern nodes.  On
+matches that cover `keep` this is `Related` (`prunePartial_total`). -/
+def RelatedP (keep : List Nat) (group : List Mapping) (m m' : Mapping) : Prop :=
+  ∃ σ₁ ∈ group, ∃ σ₂ ∈ group, ∀ p ∈ keep, pcomp m σ₁ p = pcomp m' σ₂ p
 
 /-! ## The abstract reactor -/
 
